@@ -96,6 +96,10 @@ def run(ctx):
         reqs += [('api_find_pairs', [ham, al, sorted(set(ss))]), ('api_neighbor_numbers', [ham, al, ss, sorted(set(ss))]),
                  ('api_isdist1', [ham, al, x, ss])]
     outs = ctx.oracle.run_parallel(reqs)
+    # explicit reference argument: empty, a sub-collection, a different collection (one batched oracle call for all of them)
+    refsets = [(set(), set(ss[:len(ss) // 2]), set(ss) | {x}) for al, ss, ham, x in ureq]
+    refouts = ctx.oracle.run_parallel([('api_neighbor_numbers', [ham, al, ss, sorted(ref)])
+                                       for (al, ss, ham, x), refs in zip(ureq, refsets) for ref in refs])
     for n, (al, ss, ham, x) in enumerate(ureq):
         fp, nnum, isd = outs[3 * n:3 * n + 3]
         nbf = (lambda s: ds.hamming_neighbors(s, al)) if ham else (lambda s: ds.levenshtein_neighbors(s, al))
@@ -124,8 +128,8 @@ def run(ctx):
             ctx.violation('property', 'calculate_neighbor_numbers(%s) = %s, expected %s' % (ss, str(g)[:200], nnum),
                           dict(func='calculate_neighbor_numbers', seqs=ss, hamming=ham, alphabet=al), site='distance.calculate_neighbor_numbers')
         # explicit reference argument: empty (set and list), a sub-collection, a different collection
-        for ref in (set(), set(ss[:len(ss) // 2]), set(ss) | {x}):      # reference SETS (the stated domain; a list raises TypeError in set & list)
-            o = ctx.oracle.run([('api_neighbor_numbers', [ham, al, ss, sorted(set(ref))])])[0]
+        for r, ref in enumerate(refsets[n]):      # reference SETS (the stated domain; a list raises TypeError in set & list)
+            o = refouts[3 * n + r]
             g = call_impl(lambda: ds.calculate_neighbor_numbers(ss, reference=set(ref), neighborhood=nbf))
             ctx.case(nontrivial_key=('nnum-ref', tuple(ss), tuple(sorted(ref))) if any(o) else None)
             ctx.count('neighbor_numbers_reference_' + ('empty' if not ref else 'given'))
@@ -137,6 +141,85 @@ def run(ctx):
         if g[0] != 'ok' or bool(g[1]) != isd:
             ctx.violation('property', 'isdist1(%r, %s) = %s, expected %s' % (x, ss, g, isd),
                           dict(func='isdist1', x=x, ref=ss, hamming=ham, alphabet=al), site='distance.isdist1')
+    # DENSE references over the 20-letter alphabet ("all reference sets"): a reference holding many (>= 128, >= 256, several hundred)
+    # distance-1 partners of one query - complete one-edit balls, random sub-balls of every size, unions of balls, plus distractors
+    # at distance 0 and 2.  Counts / indices must be exact whatever their magnitude (no narrow-integer wrap, no truncation).
+    AA = gens.AA
+    dcases = []                 # (ham, centre, seqs, reference or None, kind)
+    lev_lens = [7, 8, rng.randint(9, 13), rng.randint(4, 6)] + ([] if ctx.quick else [rng.randint(7, 16) for _ in range(12)])
+    ham_lens = [14, rng.randint(15, 19), rng.randint(7, 13)] + ([] if ctx.quick else [rng.randint(14, 24) for _ in range(8)])
+    centres = [(False, ''.join(rng.choice(AA) for _ in range(n))) for n in lev_lens]
+    centres.append((False, rng.choice(AA) * rng.randint(7, 10)))                                  # homopolymer
+    centres.append((False, ''.join(rng.choice('AC') * rng.randint(2, 3) for _ in range(4))))      # runs of repeated letters
+    centres += [(True, ''.join(rng.choice(AA) for _ in range(n))) for n in ham_lens]
+    centres.append((True, rng.choice(AA) * rng.randint(14, 16)))
+    balls = ctx.oracle.run_parallel([('api_ham_nbrs_pos', [AA, list(range(len(c))), c]) if ham else ('api_lev_nbrs', [AA, c]) for ham, c in centres])
+    for k, ((ham, c), ball) in enumerate(zip(centres, balls)):
+        ball = list(ball)
+        far = [gens.mutate(rng, c, AA, 2) for _ in range(6)]                       # mostly distance 2, sometimes 0 / 1
+        members = rng.sample(ball, min(4, len(ball)))
+        seqs = list(dict.fromkeys([c] + members + far + ['', c[:-1] + 'W' if c[-1:] != 'W' else c[:-1] + 'Y']))
+        rng.shuffle(seqs)
+        sub = rng.sample(ball, rng.randint(0, len(ball)))
+        sub_big = rng.sample(ball, rng.randint(min(len(ball), 256), len(ball)))
+        c2 = rng.choice(ball)
+        dcases.append((ham, c, seqs, set(ball), 'complete ball'))
+        dcases.append((ham, c, seqs, set(ball) | {c} | set(far), 'complete ball + centre + distractors'))
+        dcases.append((ham, c, seqs, set(sub) | set(far[:2]), 'random sub-ball of %d' % len(sub)))
+        dcases.append((ham, c, seqs, set(sub_big), 'random sub-ball of %d' % len(sub_big)))
+        if k % 3 == 0 or not ctx.quick:
+            ball2 = ctx.oracle.run([('api_ham_nbrs_pos', [AA, list(range(len(c2))), c2]) if ham else ('api_lev_nbrs', [AA, c2])])[0]
+            dcases.append((ham, c, list(dict.fromkeys(seqs + [c2])), set(ball) | set(ball2), 'union of the balls of two adjacent centres'))
+        if k in (0, len(lev_lens) + 2) or (not ctx.quick and k % 4 == 1):
+            # reference=None: the collection itself is the reference (duplicate-free: centre + its complete ball, > 256 sequences)
+            own = [c] + ball
+            rng.shuffle(own)
+            dcases.append((ham, c, own, None, 'reference=None, seqs = centre + complete ball'))
+    douts = ctx.oracle.run_parallel([('api_neighbor_numbers', [ham, AA, seqs, sorted(set(seqs) if ref is None else ref)])
+                                     for ham, c, seqs, ref, kind in dcases])
+    for (ham, c, seqs, ref, kind), o in zip(dcases, douts):
+        nbf = ds.hamming_neighbors if ham else ds.levenshtein_neighbors
+        mx = max(o) if o else 0
+        ctx.case(sample=dict(func='calculate_neighbor_numbers', centre=c, hamming=ham, reference=kind, n_reference=len(seqs if ref is None else ref),
+                             max_count=mx) if mx >= 256 and kind == 'complete ball' and len(c) in (7, 14) else None,
+                 nontrivial_key=('nnum-dense', ham, c, kind) if mx >= 128 else None)
+        ctx.count('neighbor_numbers_dense_max_count_' + ('>=256' if mx >= 256 else '128..255' if mx >= 128 else '<128'))
+        if ref is None:
+            g = call_impl(lambda: ds.calculate_neighbor_numbers(seqs, neighborhood=nbf))
+        else:
+            g = call_impl(lambda: ds.calculate_neighbor_numbers(seqs, reference=set(ref), neighborhood=nbf))
+        got = [int(v) for v in g[1]] if g[0] == 'ok' else None
+        if got != o:
+            bad = [(s, a, b) for s, a, b in zip(seqs, got, o) if a != b][:3] if got is not None and len(got) == len(o) else str(g)[:200]
+            ctx.violation('property', 'calculate_neighbor_numbers with a dense reference (%s of %r, %d sequences, %s neighbourhood): '
+                          '(sequence, reported, true number of distance-1 partners) = %s' %
+                          (kind, c, len(seqs if ref is None else ref), 'hamming' if ham else 'levenshtein', bad),
+                          dict(func='calculate_neighbor_numbers', seqs=seqs, reference=None if ref is None else sorted(ref), hamming=ham,
+                               alphabet=AA, centre=c, reference_kind=kind, expected=o, got=got if got is not None else str(g)[:200]),
+                          site='distance.calculate_neighbor_numbers[dense reference]')
+            if len(ctx.violations) > 5:
+                return
+        if ref is None:
+            # the same dense collection through the pair utilities: > 256 sequences, so pair indices exceed 255
+            fp = ctx.oracle.run([('api_find_pairs', [ham, AA, sorted(set(seqs))])])[0]
+            pset = {tuple(sorted(p)) for p in fp}
+            g = call_impl(lambda: ds.find_neighbor_pairs(seqs, neighborhood=nbf))
+            if g[0] != 'ok' or sorted(tuple(sorted(p)) for p in g[1]) != sorted(pset) or len(fp) != len(pset):
+                ctx.violation('property', 'find_neighbor_pairs(centre %r + its complete %s ball, %d sequences) returns %s pairs, expected each of the %d '
+                              'unordered distance-1 pairs once' % (c, 'hamming' if ham else 'levenshtein', len(seqs),
+                                                                  len(g[1]) if g[0] == 'ok' else str(g)[:200], len(pset)),
+                              dict(func='find_neighbor_pairs', seqs=seqs, hamming=ham, alphabet=AA), site='distance.find_neighbor_pairs[dense]')
+            pos = {s: i for i, s in enumerate(seqs)}
+            exp_idx = sorted([(pos[a], pos[b]) for a, b in pset] + [(pos[b], pos[a]) for a, b in pset])
+            g = call_impl(lambda: ds.find_neighbor_pairs_index(seqs, neighborhood=nbf))
+            gi = sorted((int(a), int(b)) for a, b in g[1]) if g[0] == 'ok' else None
+            if gi != exp_idx:
+                diff = sorted(set(gi) ^ set(exp_idx))[:4] if gi is not None else str(g)[:200]
+                ctx.violation('property', 'find_neighbor_pairs_index(centre %r + its complete %s ball, %d sequences): %s index pairs, expected %d; '
+                              'first differing index pairs %s' % (c, 'hamming' if ham else 'levenshtein', len(seqs),
+                                                                 len(gi) if gi is not None else '-', len(exp_idx), diff),
+                              dict(func='find_neighbor_pairs_index', seqs=seqs, hamming=ham, alphabet=AA), site='distance.find_neighbor_pairs_index[dense]')
+            ctx.case(nontrivial_key=('pairs-dense', ham, c) if len(seqs) > 256 else None)
     # nndist_hamming (alphabet is the amino acids)
     nreq, ncase = [], []
     for _ in range(60 if ctx.quick else 6000):
